@@ -622,6 +622,9 @@ class Interp:
             try:
                 return obj[idx]
             except IndexError:
+                if self.spec:
+                    # undefined term: only harmless under a false guard
+                    return TVal.fresh('undef')
                 self.raise_('IndexError', node=node)
         if isinstance(obj, (tuple, list)):
             # symbolic index into concrete tuple: case split
@@ -666,6 +669,14 @@ class Interp:
             return getattr(obj, name)
         if isinstance(obj, SFunc) and name == 'name':
             return obj.name
+        if isinstance(obj, FuncRef) and name == 'closure_vars':
+            out = {}
+            f = obj.closure
+            while f is not None:
+                for k, v in f.vars.items():
+                    out.setdefault(k, v)
+                f = f.parent
+            return out
         if isinstance(obj, S.SIter) and name in ('seq', 'pos'):
             return obj.seq if name == 'seq' else SInt(obj.pos)
         r = self.world.attr_model(obj, name, self)
